@@ -95,17 +95,17 @@ func (w *world) canon(t int, idx int) (cnt, chn, lst uint64) {
 }
 
 type puppet struct {
-	x    *Ctx
-	M    *mon.Monitor
-	C    *cluster.Cluster
-	n    *cluster.Node
-	eps  map[string]*simnet.Endpoint
-	w    *world
-	desc []string
+	x            *Ctx
+	M            *mon.Monitor
+	C            *cluster.Cluster
+	n            *cluster.Node
+	eps          map[string]*simnet.Endpoint
+	w            *world
+	desc         []string
 	grantPrevote atomic.Bool
 	grantVote    atomic.Bool
-	cfgBytes []byte
-	snapshots bool
+	cfgBytes     []byte
+	snapshots    bool
 }
 
 func (p *puppet) log(format string, args ...interface{}) {
@@ -440,6 +440,12 @@ func puppetRV(p *puppet, r *rand.Rand) {
 	w := p.w
 	ft, f := p.buildFollower(r)
 	_ = ft
+	if p.snapshots {
+		time.Sleep(3 * time.Millisecond) // let the node apply, snapshot and compact
+		if r.Intn(2) == 0 {
+			p.crashRestart() // the compacted log is reloaded from disk
+		}
+	}
 	role := r.Intn(3) // 0 follower, 1 precandidate, 2 candidate
 	switch role {
 	case 1:
@@ -657,9 +663,9 @@ func (p *puppet) probes(r *rand.Rand) {
 	p.M.Unlock()
 	term := s.Term + 1
 	type pr struct {
-		kind       string
-		prev, pt   uint64
-		expect     bool
+		kind     string
+		prev, pt uint64
+		expect   bool
 	}
 	// replication probes (no entries, commit 0): accept iff prev entry matches
 	for _, q := range []pr{{"ae-at-last", li, lt, true}, {"ae-wrong-term", li, lt + 7, false}, {"ae-beyond-last", li + 1, lt, false}} {
@@ -702,6 +708,8 @@ func init() {
 		// snapthr > 0: the node takes snapshots of its own (compaction that retains the entries after the label)
 		runPuppetCases(x, x.P.Int("cases", 40), shim.FSMOpts{Seed: x.Seed, SnapThreshold: x.P.Int("snapthr", 0)}, puppetAE)
 	}
-	Registry["puppet.rv"] = func(x *Ctx) { runPuppetCases(x, x.P.Int("cases", 30), shim.FSMOpts{Seed: x.Seed}, puppetRV) }
+	Registry["puppet.rv"] = func(x *Ctx) {
+		runPuppetCases(x, x.P.Int("cases", 30), shim.FSMOpts{Seed: x.Seed, SnapThreshold: x.P.Int("snapthr", 0)}, puppetRV)
+	}
 	Registry["puppet.is"] = func(x *Ctx) { runPuppetCases(x, x.P.Int("cases", 30), shim.FSMOpts{Seed: x.Seed}, puppetIS) }
 }
